@@ -330,3 +330,5 @@ def run(chk, facts, tier):
     facts.load_crate("cedar_policy.lib")
     from rules import C08 as _c08
     _c08.wrapper_tables(chk, facts)
+    from rules import shared_namesake
+    shared_namesake.check(chk, facts, "C06.NAMESAKE.variant", None, 125)
